@@ -81,7 +81,7 @@ func (s *Session) client(info services.ServiceInfo) (bus.Client, error) {
 	s.pollMutex.Lock()
 	c, ok := s.poll[addr]
 	if ok {
-		s.pollMutex.RUnlock()
+		s.pollMutex.Unlock()
 		endpoint.Close()
 		return c, nil
 	}
